@@ -62,5 +62,16 @@ UNIT = {
         m("ReservedHeapSection", "cell_len"),
         m("ReservedHeapSection", "push_cell"),
         m("ReservedHeapSection", "push_pstr_segment", extra=[("replace", "src: &str", "src: StrRef", "R7")]),
+        m("ReservedHeapSection", "push_pstr", extra=[
+            ("replace", "mut src: &str", "mut src: StrRef", "R7"),
+            # R6: str iterator / search / range indexing -> named shims over the byte view of the text
+            ("replace", "while let Some('\\u{0}') = src.chars().next()", "while str_first_is_nul(src)", "R6"),
+            ("replace", "src.find('\\u{0}')", "str_find_nul(src)", "R6"),
+            ("str_index", "src"),
+            ("macro_fn", "debug_assert_ne", "debug_assert_shim2", "R18"),
+            ("macro_fn", "debug_assert_eq", "debug_assert_shim2", "R18"),
+            ("macro_fn", "list_loc_as_cell", "list_loc_as_cell", "R5"),
+            ("macro_fn", "pstr_loc_as_cell", "pstr_loc_as_cell", "R5"),
+            ("macro_fn", "char_as_cell", "char_as_cell", "R5")]),
     ],
 }
